@@ -265,7 +265,9 @@ def label_costs(rng):
 
 def unordered_case(ctx, rng, max_o=5, max_s=4, max_f=4):
     k = rng.random()
-    if k < 0.12:
+    if k < 0.08:
+        return gen.sibling_inherit_case(rng, None if rng.random() < 0.7 else label_costs(rng), small=True)
+    if k < 0.18:
         # both children of some node internal, families confined to clades (gains at several depths)
         costs = None if rng.random() < 0.5 else {"spe": 0, "dup": 1, "hgt": 1, "floss": 1, "sloss": 1}
         return gen.clade_case(rng, 6, 7, 2, rng.randint(3, 4), True, costs)
